@@ -128,8 +128,21 @@ def run_shear(case):
         seam_guard(ex)
         return {"viol": [V(f"c02:shear:raises:{type(ex).__name__}", f"{ex!r}")], "outcome": "raises"}
     nons = 0
+    ref = c01.reference(laws, w, t, v) if any(p[1] <= 3 for p in pairs) else None
+    cv = duck.qha_calculator.volume_base.heat_capacity
+    frac = numpy.asarray(strain, float) / numpy.asarray(strain, float).sum(axis=1, keepdims=True)   # e_i = strain_i / sum(strain)
     for p, k in zip(pairs, keys):
         a, b = numpy.asarray(iso[k]), numpy.asarray(adi[k])
+        if p[1] <= 3:
+            # the gap of the non-shear keys as delivered by the task list (strain fractions of the possibly
+            # un-normalised positive axial strains)
+            ee = (frac[:, p[0] - 1] * frac[:, p[1] - 1])[None, :]
+            r = t[:, None] * v[None, :] * ref["dPdT"] ** 2 / (9 * ee * cv)
+            sc = t[:, None] * v[None, :] * ref["SdPdT"] ** 2 / (9 * ee * cv)
+            bad = ~(numpy.abs((b - a) - r) <= RTOL * sc + 8e-16 * (numpy.abs(a) + numpy.abs(b)) + 1e-300)
+            if bad.any():
+                idx = tuple(int(x) for x in numpy.argwhere(bad)[0])
+                viol.append(V("c02:tasklist:gap-mismatch", f"c{p[0]}{p[1]} via the task list at {idx} (strain {case['strain']}): adiabatic-isothermal = {float((b - a)[idx])!r} vs T V (dP/dT)^2/(9 e_i e_j C_V) = {float(r[idx])!r}"))
         if p[1] >= 4:
             if not numpy.array_equal(a, b):
                 viol.append(V("c02:shear:adiabatic-differs", f"c{p[0]}{p[1]}: adiabatic differs from isothermal by {float(numpy.abs(a - b).max())!r} (strain {case['strain']})"))
@@ -143,7 +156,7 @@ def explore(ctx):
     ctx.rule = ("mode A: deviation lattice of C01's alphabets + heat-capacity field; each configuration evaluates the gap for all 9 "
                 "ordered (i,j) with i,j<=3 against -d2F/dTdV from mpmath; plus all 15 shear keys through the real task list "
                 "(full set, each singleton, each pair with a non-shear key) x strain fields x spectra: adiabatic bit-identical to "
-                "isothermal; mode B: all sequences of <=3 states (T grid / spectrum / C_V replaced) evaluated on ONE calculator-like object, and "
+                "isothermal, and the gap of the non-shear keys delivered by the task list (also for positive strains not normalised to 1) against the same formula; mode B: all sequences of <=3 states (T grid / spectrum / C_V replaced) evaluated on ONE calculator-like object, and "
                 "on objects released one after the other; non-trivial = dP/dT non-zero somewhere / non-shear gap non-zero in the same request")
     ctx.assumptions = c01.explore.__doc__ and [] or []
     ctx.assumptions = ["as C01", "C_V is an arbitrary supplied positive field (constant, (T,V)-varying)"]
@@ -159,7 +172,7 @@ def explore(ctx):
     shear_cases = []
     specs = [{}, {"tgrid": [0.0, 2.0, 300.0, 2500.0], "cv": "const"}, {"nq": 3, "na": 1, "wset": "edge", "tgrid": [5.0, 1500.0]}]
     for sp in (specs if not ctx.quick else specs[:2]):
-        for s in ["const", "thirds", "field", "extreme"]:
+        for s in ["const", "thirds", "field", "extreme", "ones", "raw"]:
             shear_cases.append({"spec": sp, "strain": s, "keys": [list(p) for p in allp]})
             shear_cases.append({"spec": sp, "strain": s, "keys": [list(p) for p in SHEAR]})
             for p in SHEAR:
